@@ -135,6 +135,27 @@ func Size(n int) int {
 	}
 	return n
 }
+
+// SelBegin / SelNext make a select statement with several cases
+// deterministic: before blocking, the cases are polled one by one, in an
+// order the simulator chooses, while the calling task still has the baton.
+var (
+	SelB func(point string, k int)
+	SelN func(i, k int) int
+)
+
+func SelBegin(point string, k int) {
+	if SelB != nil {
+		SelB(point, k)
+	}
+}
+
+func SelNext(i, k int) int {
+	if SelN != nil {
+		return SelN(i, k)
+	}
+	return i
+}
 `
 
 // bridgeSrc is a second overlay-only package, inside the resolve module, that
@@ -161,18 +182,165 @@ func DepTypeParse(s string) (dep.Type, error) { return deptest.ParseString(s) }
 
 // Report says what was instrumented.
 type Report struct {
-	LockSites  []string `json:"lock_sites"`
-	SyncSites  []string `json:"sync_sites"`
-	BlockSites []string `json:"block_sites"`
-	GoSites    []string `json:"go_sites"`
-	SizeSites  []string `json:"lru_size_sites"`
-	ProbeSites []string `json:"probe_sites,omitempty"`
-	Files      int      `json:"files_rewritten"`
+	LockSites   []string `json:"lock_sites"`
+	SyncSites   []string `json:"sync_sites"`
+	BlockSites  []string `json:"block_sites"`
+	GoSites     []string `json:"go_sites"`
+	SelectSites int      `json:"select_sites"`
+	SizeSites   []string `json:"lru_size_sites"`
+	ProbeSites  []string `json:"probe_sites,omitempty"`
+	Files       int      `json:"files_rewritten"`
 }
 
 type edit struct {
 	off  int
 	text string
+}
+
+// rewriteSelects is a pre-pass over one source file. Go chooses at random
+// among the ready cases of a select; the simulator must own that choice. A
+// select without default and with at least two cases
+
+//	select { case C1: B1; case C2: B2 }
+
+// becomes
+
+//	{ __sd := false; verifhook.SelBegin(point, 2)
+//	  for __si := 0; __si < 2 && !__sd; __si++ {
+//	    switch verifhook.SelNext(__si, 2) {
+//	    case 0: select { case C1: __sd = true; B1; default: }
+//	    case 1: select { case C2: __sd = true; B2; default: } } }
+//	  if !__sd { select { case C1: B1; case C2: B2 } } }
+
+// so that cases already ready are taken in an order drawn from the tape while
+// the task holds the baton, and only a select on which the task really has to
+// wait is executed as a blocking operation (bracketed by the main pass). A
+// select that is labelled, or whose case bodies contain a continue that
+// refers to a loop outside the select, is left alone. A //line directive after
+// the rewritten statement keeps the line numbers of the rest of the file.
+func rewriteSelects(filename string, src []byte) ([]byte, int, error) {
+	fset := token.NewFileSet()
+	af, err := parser.ParseFile(fset, filename, src, parser.SkipObjectResolution)
+	if err != nil {
+		return nil, 0, err
+	}
+	off := func(p token.Pos) int { return fset.Position(p).Offset }
+	labelled := map[*ast.SelectStmt]bool{}
+	var sels []*ast.SelectStmt
+	ast.Inspect(af, func(n ast.Node) bool {
+		switch x := n.(type) {
+		case *ast.LabeledStmt:
+			if ss, ok := x.Stmt.(*ast.SelectStmt); ok {
+				labelled[ss] = true
+			}
+		case *ast.SelectStmt:
+			sels = append(sels, x)
+		}
+		return true
+	})
+	// an unlabelled continue that belongs to a loop outside the clause body
+	escapes := func(cc *ast.CommClause) bool {
+		found := false
+		var walk func(n ast.Node, inLoop bool)
+		walk = func(n ast.Node, inLoop bool) {
+			ast.Inspect(n, func(m ast.Node) bool {
+				if m == nil || found {
+					return false
+				}
+				switch y := m.(type) {
+				case *ast.FuncLit:
+					return false
+				case *ast.ForStmt:
+					if m != n {
+						walk(y.Body, true)
+						return false
+					}
+				case *ast.RangeStmt:
+					if m != n {
+						walk(y.Body, true)
+						return false
+					}
+				case *ast.BranchStmt:
+					if y.Tok == token.CONTINUE && y.Label == nil && !inLoop {
+						found = true
+					}
+				}
+				return true
+			})
+		}
+		for _, st := range cc.Body {
+			walk(st, false)
+		}
+		return found
+	}
+	eligible := map[*ast.SelectStmt]bool{}
+	for _, ss := range sels {
+		if labelled[ss] || len(ss.Body.List) < 2 {
+			continue
+		}
+		ok := true
+		for _, c := range ss.Body.List {
+			cc := c.(*ast.CommClause)
+			if cc.Comm == nil || escapes(cc) {
+				ok = false
+			}
+		}
+		eligible[ss] = ok
+	}
+	n := 0
+	var render func(from, to int) string
+	var rewritten func(ss *ast.SelectStmt) string
+	render = func(from, to int) string {
+		// outermost eligible selects inside [from,to)
+		var sb strings.Builder
+		last := from
+		for _, ss := range sels {
+			a, b := off(ss.Pos()), off(ss.End())
+			if !eligible[ss] || a < last || b > to {
+				continue
+			}
+			sb.Write(src[last:a])
+			sb.WriteString(rewritten(ss))
+			last = b
+		}
+		sb.Write(src[last:to])
+		return sb.String()
+	}
+	rewritten = func(ss *ast.SelectStmt) string {
+		n++
+		id := n
+		k := len(ss.Body.List)
+		pos := fset.Position(ss.Pos())
+		rel := filename
+		if i := strings.Index(filename, "/util/"); i >= 0 {
+			rel = filename[i+len("/util/"):]
+		}
+		point := fmt.Sprintf("select:%s:%d", rel, pos.Line)
+		var sb strings.Builder
+		fmt.Fprintf(&sb, "{ __sd%d := false; verifhook.SelBegin(%q, %d); for __si%d := 0; __si%d < %d && !__sd%d; __si%d++ { switch verifhook.SelNext(__si%d, %d) {", id, point, k, id, id, k, id, id, id, k)
+		var full strings.Builder
+		full.WriteString("select {")
+		for i, c := range ss.Body.List {
+			cc := c.(*ast.CommClause)
+			comm := string(src[off(cc.Comm.Pos()):off(cc.Comm.End())])
+			bodyFrom := off(cc.Colon) + 1
+			bodyTo := off(ss.Body.Rbrace)
+			if i+1 < k {
+				bodyTo = off(ss.Body.List[i+1].Pos())
+			}
+			body := render(bodyFrom, bodyTo)
+			fmt.Fprintf(&sb, "\ncase %d: select { case %s: __sd%d = true; %s\ndefault: }", i, comm, id, body)
+			fmt.Fprintf(&full, "\ncase %s: %s", comm, body)
+		}
+		full.WriteString("\n}")
+		fmt.Fprintf(&sb, "\n} }; if !__sd%d { %s } }\n//line %s:%d\n", id, full.String(), filename, fset.Position(ss.End()).Line)
+		return sb.String()
+	}
+	out := render(0, len(src))
+	if n == 0 {
+		return src, 0, nil
+	}
+	return []byte(out), n, nil
 }
 
 // Generate writes the overlay for repo into dir and returns the path of the
@@ -217,10 +385,15 @@ func Generate(repo, dir string) (string, *Report, error) {
 		if err != nil {
 			return "", nil, err
 		}
+		var nsel int
+		if src, nsel, err = rewriteSelects(f, src); err != nil {
+			return "", nil, fmt.Errorf("parse %s: %w", f, err)
+		}
+		rep.SelectSites += nsel
 		fset := token.NewFileSet()
 		af, err := parser.ParseFile(fset, f, src, parser.SkipObjectResolution)
 		if err != nil {
-			return "", nil, fmt.Errorf("parse %s: %w", f, err)
+			return "", nil, fmt.Errorf("parse %s (after the select pre-pass): %w", f, err)
 		}
 		rel, _ := filepath.Rel(root, f)
 		var edits []edit
